@@ -91,17 +91,20 @@ func init() {
 			// latter case its body is read with its parameters bound to the arguments of the go statement.
 			watcher := false
 			if mh := findFunc(f, "ConnectionHandler", "muxHandler"); mh != nil && mh.Body != nil {
-				tgt := openedTarget14(mh)
 				idx := pkgFuncIndex14("internal/server")
-				ast.Inspect(mh.Body, func(n ast.Node) bool {
+				// the function that opens the target (muxHandler or the helper it hands the matched channel to), with
+				// its names bound to muxHandler's
+				opener, ob := openerOf14(mh, idx)
+				tgt := openedTarget14(opener)
+				ast.Inspect(opener.Body, func(n ast.Node) bool {
 					g, ok := n.(*ast.GoStmt)
 					if !ok {
 						return true
 					}
 					var body ast.Node = g.Call
-					b := bind14{}
-					if callee := resolveCall14(idx, g.Call, mh); callee != nil {
-						body, b = callee.Body, bindCall14(bind14{}, g.Call, callee)
+					b := ob
+					if callee := resolveCall14(idx, g.Call, opener); callee != nil {
+						body, b = callee.Body, bindCall14(ob, g.Call, callee)
 					}
 					ast.Inspect(body, func(m ast.Node) bool {
 						cc, ok := m.(*ast.CommClause)
